@@ -27,76 +27,62 @@ Section Restore.
   Qed.
 End Restore.
 
-(** The invariant: without code macros, compiling a word - whatever fails inside it, at whatever
-    depth of fill and try - leaves mode, in_fill, in_try and comptime_depth exactly as they were. *)
-Theorem compile_restores : forall fuel s w, no_macro w = true -> snd (ccompile true fuel s w) = s.
+Lemma set_fill_back : forall s, set_fill (set_fill s Lsp true) (cs_mode s) (cs_in_fill s) = s.
+Proof. intros []; reflexivity. Qed.
+Lemma set_try_back : forall s, set_try (set_try s true) (cs_in_try s) = s.
+Proof. intros []; reflexivity. Qed.
+Lemma macro_back : forall s,
+  set_depth (set_depth s (S (cs_depth s))) (pred (cs_depth (set_depth s (S (cs_depth s))))) = s.
+Proof. intros []; reflexivity. Qed.
+Lemma quote_back : forall s1,
+  set_mode (set_depth (set_depth (set_mode s1 (mode_min_line (cs_mode s1))) (S (cs_depth s1)))
+             (pred (cs_depth (set_depth (set_mode s1 (mode_min_line (cs_mode s1))) (S (cs_depth s1))))))
+           (cs_mode s1) = s1.
+Proof. intros []; reflexivity. Qed.
+
+(** The invariant, for the code as it stands (fixes 501199d included) and EVERY word - fill, try and
+    code macros nested in any way, whatever fails inside, parse errors and too-deep recursions of
+    macros included: compiling it leaves mode, in_fill, in_try and comptime_depth exactly as they
+    were, on the Ok path and on the Err path. *)
+Theorem compile_restores : forall fuel s w, snd (ccompile true true fuel s w) = s.
 Proof.
-  induction fuel as [|k IH]; intros s w H; [reflexivity|].
-  destruct w; cbn [ccompile]; cbn [no_macro] in H.
+  induction fuel as [|k IH]; intros s w; [reflexivity|].
+  assert (IHP : forall s0 w0, (fun _ : cword => true) w0 = true -> snd (ccompile true true k s0 w0) = s0)
+    by (intros; apply IH).
+  assert (Hall : forall ws : list cword, forallb (fun _ => true) ws = true)
+    by (induction ws; cbn; auto).
+  destruct w; cbn [ccompile].
   - reflexivity.
-  - apply (cseq_restores (ccompile true k) no_macro IH). assumption.
-  - cbn [snd]. apply (clines_restores (ccompile true k) no_macro IH). assumption.
-  - apply andb_true_iff in H. destruct H as [Hf Hw].
-    pose proof (IH (set_fill s Lsp true) w1 Hf) as E.
-    destruct (ccompile true k (set_fill s Lsp true) w1) as [ok s2]. cbn in E. subst s2.
-    rewrite andb_false_r.
-    assert (Hs : set_fill (set_fill s Lsp true) (cs_mode s) (cs_in_fill s) = s) by (destruct s; reflexivity).
-    rewrite Hs. destruct ok; [apply IH; assumption | reflexivity].
-  - pose proof (cseq_restores (ccompile true k) no_macro IH branches (set_try s true) H) as E.
-    destruct (cseq (ccompile true k) (set_try s true) branches) as [ok s2]. cbn in E. subst s2.
-    cbn [snd]. destruct s; reflexivity.
-  - discriminate.
+  - apply (cseq_restores (ccompile true true k) (fun _ => true) IHP). apply Hall.
+  - cbn [snd]. apply (clines_restores (ccompile true true k) (fun _ => true) IHP). apply Hall.
+  - pose proof (IH (set_fill s Lsp true) w1) as E.
+    destruct (ccompile true true k (set_fill s Lsp true) w1) as [ok s2]. cbn in E. subst s2.
+    rewrite andb_false_r. rewrite set_fill_back. destruct ok; [apply IH | reflexivity].
+  - pose proof (cseq_restores (ccompile true true k) (fun _ => true) IHP branches (set_try s true) (Hall _)) as E.
+    destruct (cseq (ccompile true true k) (set_try s true) branches) as [ok s2]. cbn in E. subst s2.
+    cbn [snd]. apply set_try_back.
+  - cbn [snd].
+    destruct (MAX_COMPTIME_DEPTH <? cs_depth (set_depth s (S (cs_depth s)))); [apply macro_back|].
+    destruct (negb parse_ok); [apply macro_back|].
+    match goal with |- context [if ?c then _ else _] => destruct c end; [apply macro_back|].
+    cbn [snd]. rewrite IH. rewrite quote_back. apply macro_back.
 Qed.
 
 (** Seen from the embedder: a snippet is a list of lines; after it - accepted or rejected - the
     compiler is in the mode the embedder set, outside any fill or try, at depth 0. *)
-Corollary snippet_restores : forall fuel mode ws, forallb no_macro ws = true ->
-  clines (ccompile true fuel) (CS mode false false 0) ws = CS mode false false 0.
+Corollary snippet_restores : forall fuel mode ws,
+  clines (ccompile true true fuel) (CS mode false false 0) ws = CS mode false false 0.
 Proof.
-  intros fuel mode ws H. apply (clines_restores (ccompile true fuel) no_macro); [|assumption].
-  intros s w. apply compile_restores.
+  intros fuel mode ws. apply (clines_restores (ccompile true true fuel) (fun _ => true)).
+  - intros s w _. apply compile_restores.
+  - induction ws; cbn; auto.
 Qed.
 
-(** in_fill and in_try are restored for every word, code macros included *)
-Theorem compile_restores_flags : forall fuel s w,
-  cs_in_fill (snd (ccompile true fuel s w)) = cs_in_fill s /\
-  cs_in_try (snd (ccompile true fuel s w)) = cs_in_try s.
-Proof.
-  induction fuel as [|k IH]; intros s w; [split; reflexivity|].
-  assert (Hseq : forall ws s0, cs_in_fill (snd (cseq (ccompile true k) s0 ws)) = cs_in_fill s0 /\
-                               cs_in_try (snd (cseq (ccompile true k) s0 ws)) = cs_in_try s0).
-  { induction ws as [|x t IHw]; intros s0; cbn; [split; reflexivity|].
-    pose proof (IH s0 x) as E. destruct (ccompile true k s0 x) as [ok s1]. cbn in E.
-    destruct ok; [|exact E]. destruct (IHw s1) as [A B]. destruct E as [E1 E2]. split; congruence. }
-  assert (Hlines : forall ws s0, cs_in_fill (clines (ccompile true k) s0 ws) = cs_in_fill s0 /\
-                                 cs_in_try (clines (ccompile true k) s0 ws) = cs_in_try s0).
-  { unfold clines. induction ws as [|x t IHw]; intros s0; cbn; [split; reflexivity|].
-    destruct (IHw (snd (ccompile true k s0 x))) as [A B]. destruct (IH s0 x) as [E1 E2]. split; congruence. }
-  destruct w; cbn [ccompile].
-  - split; reflexivity.
-  - apply Hseq.
-  - cbn [snd]. apply Hlines.
-  - pose proof (IH (set_fill s Lsp true) w1) as E.
-    destruct (ccompile true k (set_fill s Lsp true) w1) as [ok s2]. cbn in E. destruct E as [E1 E2].
-    rewrite andb_false_r.
-    destruct ok.
-    + destruct (IH (set_fill s2 (cs_mode s) (cs_in_fill s)) w2) as [A B]. cbn in A, B. split; congruence.
-    + cbn. split; [reflexivity | exact E2].
-  - pose proof (Hseq branches (set_try s true)) as E.
-    destruct (cseq (ccompile true k) (set_try s true) branches) as [ok s2]. cbn in E. cbn. tauto.
-  - destruct (MAX_COMPTIME_DEPTH <? cs_depth (set_depth s (S (cs_depth s)))); [split; reflexivity|].
-    destruct (negb parse_ok); [split; reflexivity|].
-    match goal with |- context [if ?c then _ else _] => destruct c end; [split; reflexivity|].
-    cbn.
-    match goal with |- context [ccompile true k ?s2 w] => destruct (IH s2 w) as [A B] end.
-    cbn in A, B. split; assumption.
-Qed.
-
-(** The defect in the code as it stands (confirmed on the implementation through the session
-    check): an error inside the expansion of a code macro returns before comptime_depth is
-    decremented; the rejected snippet leaves the compiler one level deeper for good. *)
-Theorem codemacro_err_leaks_depth_refuted : exists s w,
-  fst (ccompile true 200 s w) = false /\ cs_depth (snd (ccompile true 200 s w)) <> cs_depth s.
+(** RECORD (code before fix 501199d, confirmed on the implementation of that time through the
+    session check): an error inside the expansion of a code macro returned before comptime_depth
+    was decremented; the rejected snippet left the compiler one level deeper for good. *)
+Theorem codemacro_err_leaks_depth_refuted_pre : exists s w,
+  fst (ccompile true false 200 s w) = false /\ cs_depth (snd (ccompile true false 200 s w)) <> cs_depth s.
 Proof.
   exists (CS Normal false false 0), (WCodeMacro false (WLeaf true)). vm_compute. split; [reflexivity | discriminate].
 Qed.
@@ -104,7 +90,7 @@ Qed.
 (** The fill arm with the `?` before the restore (the shape of the seeded defect) breaks the
     invariant: one rejected snippet leaves the compiler in editor mode. *)
 Theorem unfixed_fill_leaks_mode : exists s w, no_macro w = true /\
-  fst (ccompile false 200 s w) = false /\ cs_mode (snd (ccompile false 200 s w)) = Lsp /\ cs_mode s = Normal.
+  fst (ccompile false true 200 s w) = false /\ cs_mode (snd (ccompile false true 200 s w)) = Lsp /\ cs_mode s = Normal.
 Proof.
   exists (CS Normal false false 0), (WFill (WLeaf false) (WLeaf true)). vm_compute. repeat split; reflexivity.
 Qed.
@@ -119,24 +105,68 @@ Theorem comptime_backend_refuted_pre : exists m, comptime_backend_pre m = BNativ
 Proof. exists Lsp. reflexivity. Qed.
 
 (** * The pre-evaluation cache *)
-(** on a miss the calls are exactly those of evaluating on the compiler's own backend *)
-Theorem cache_miss_own_backend : forall key keyb val eval c b k,
-  clookup key keyb val k c = None ->
-  snd (fst (comptime_cached key keyb val eval c b k)) = snd (eval b k).
-Proof.
-  intros key keyb val eval c b k H. unfold comptime_cached. rewrite H.
-  destruct (eval b k); reflexivity.
-Qed.
-(** Finding (code as it stands, confirmed on the implementation with two compilers on one thread):
-    a hit serves the value another backend produced, with no call on the asking compiler's backend.
-    Backend 0 allows the read, backend 1 denies it. *)
-Theorem cache_crosses_backends_refuted :
+Section CacheSound.
+  Variable key : Type.
+  Variable keyb : key -> key -> bool.
+  Variable val : Type.
+  Variable eval : nat -> key -> val * list event.
+  Variable cacheable : key -> bool.
+  Hypothesis keyb_eq : forall a b, keyb a b = true -> a = b.
+  (** what pure_no_effect gives for a node that is_pure: its evaluation calls no backend and so
+      cannot depend on which backend the scratch runtime has *)
+  Hypothesis pure_backend_free : forall k, cacheable k = true ->
+    forall b b', eval b k = eval b' k /\ snd (eval b k) = [].
+
+  (** every entry belongs to a pure node and holds the value any backend's evaluation gives *)
+  Definition coherent (c : list (key * val)) : Prop :=
+    forall k v, clookup key keyb val k c = Some v -> cacheable k = true /\ forall b, fst (eval b k) = v.
+
+  Notation cached := (comptime_cached key keyb val eval cacheable).
+
+  (** an impure node is never looked up nor stored: it is evaluated on the asking compiler's own
+      backend, every time *)
+  Theorem cache_skips_impure : forall c b k, cacheable k = false -> cached c b k = (fst (eval b k), snd (eval b k), c).
+  Proof. intros c b k H. unfold comptime_cached. rewrite H. destruct (eval b k); reflexivity. Qed.
+
+  (** whatever the history of compilers and backends on the thread: the value a compiler gets is the
+      value its own backend's evaluation gives, the calls it makes are made on its own backend, and
+      the cache stays coherent - no value obtained from a backend is ever served *)
+  Theorem cache_sound : forall c b k, coherent c ->
+    fst (fst (cached c b k)) = fst (eval b k) /\
+    (snd (fst (cached c b k)) = [] \/ snd (fst (cached c b k)) = snd (eval b k)) /\
+    coherent (snd (cached c b k)).
+  Proof.
+    intros c b k Hc. unfold comptime_cached.
+    destruct (cacheable k) eqn:Ek.
+    - unfold comptime_cached_pre. destruct (clookup key keyb val k c) as [v|] eqn:El.
+      + cbn. destruct (Hc k v El) as [_ Hv]. rewrite Hv. auto.
+      + destruct (eval b k) as [v t] eqn:Ee. cbn. split; [reflexivity|]. split; [right; reflexivity|].
+        intros k' v' H. cbn in H. destruct (keyb k' k) eqn:Ekk.
+        * apply keyb_eq in Ekk. subst k'. inversion H; subst v'. split; [assumption|].
+          intros b'. destruct (pure_backend_free k Ek b' b) as [E _]. rewrite E, Ee. reflexivity.
+        * apply Hc. assumption.
+    - destruct (eval b k) as [v t]. cbn. auto.
+  Qed.
+End CacheSound.
+
+(** RECORD (code before fix 49da69f, confirmed on the implementation of that time with two compilers
+    on one thread): a hit served the value another backend produced, with no call on the asking
+    compiler's backend.  Backend 0 allows the read, backend 1 denies it. *)
+Theorem cache_crosses_backends_refuted_pre :
   exists (eval : nat -> nat -> option string * list event) c1 v1,
-    comptime_cached nat Nat.eqb (option string) eval [] 0 7 = (Some v1, ["file_read_all"%string], c1) /\
+    comptime_cached_pre nat Nat.eqb (option string) eval [] 0 7 = (Some v1, ["file_read_all"%string], c1) /\
     eval 1 7 = (None, ["file_read_all"%string]) /\
-    comptime_cached nat Nat.eqb (option string) eval c1 1 7 = (Some v1, [], c1).
+    comptime_cached_pre nat Nat.eqb (option string) eval c1 1 7 = (Some v1, [], c1).
 Proof.
   exists (fun b k => if Nat.eqb b 0 then (Some "contents"%string, ["file_read_all"%string])
                      else (None, ["file_read_all"%string])).
   eexists. eexists. vm_compute. repeat split; reflexivity.
 Qed.
+(** the same history on the code as it stands: the read is impure, so the second compiler's call
+    goes to its own (denying) backend *)
+Theorem cache_same_history_repaired :
+  let eval := fun (b k : nat) => if Nat.eqb b 0 then (Some "contents"%string, ["file_read_all"%string])
+                                 else (None, ["file_read_all"%string]) in
+  let c1 := snd (comptime_cached nat Nat.eqb (option string) eval (fun _ => false) [] 0 7) in
+  comptime_cached nat Nat.eqb (option string) eval (fun _ => false) c1 1 7 = (None, ["file_read_all"%string], []).
+Proof. vm_compute. reflexivity. Qed.
